@@ -755,3 +755,56 @@ func ruleMakeSliceKind(w *World, r *Report, rule string, pkgs ...string) int {
 	}
 	return len(sites)
 }
+
+// REFLECT-FRESH-ACCUMULATOR: the reflect.Value a concat function writes into (SetMapIndex / Set / SetLen …) is one it
+// created (reflect.MakeMap / MakeSlice / New / Zero), never one reached from its parameters (Index / MapIndex / Elem /
+// Field of a parameter): an input chunk adopted as accumulator is rewritten in place, and the copies of a stream share
+// their chunk objects.
+func reflectWriteReceiversFromParams(fn *ssa.Function) []*ssa.Call {
+	var out []*ssa.Call
+	var fromParam func(v ssa.Value, d int, seen map[ssa.Value]bool) bool
+	fromParam = func(v ssa.Value, d int, seen map[ssa.Value]bool) bool {
+		if d > 10 || v == nil || seen[v] {
+			return false
+		}
+		seen[v] = true
+		switch x := v.(type) {
+		case *ssa.Parameter:
+			return isReflectValue(x.Type())
+		case *ssa.Phi:
+			for _, e := range x.Edges {
+				if fromParam(e, d+1, seen) {
+					return true
+				}
+			}
+		case *ssa.Call:
+			name := calleeFullName(x)
+			switch name {
+			case "reflect.MakeMap", "reflect.MakeMapWithSize", "reflect.MakeSlice", "reflect.New", "reflect.Zero":
+				return false
+			}
+			if strings.HasPrefix(name, "(reflect.Value).") && len(x.Call.Args) > 0 {
+				return fromParam(x.Call.Args[0], d+1, seen)
+			}
+			if name == "reflect.ValueOf" {
+				return paramRoot(through(x.Call.Args[0]), 0) != nil
+			}
+		case *ssa.Extract:
+			return fromParam(x.Tuple, d+1, seen)
+		}
+		return false
+	}
+	instrs(fn, func(in ssa.Instruction) {
+		c, ok := in.(*ssa.Call)
+		if !ok {
+			return
+		}
+		switch calleeFullName(c) {
+		case "(reflect.Value).SetMapIndex", "(reflect.Value).Set", "(reflect.Value).SetLen", "(reflect.Value).SetString", "(reflect.Value).SetInt":
+			if fromParam(c.Call.Args[0], 0, map[ssa.Value]bool{}) {
+				out = append(out, c)
+			}
+		}
+	})
+	return out
+}
